@@ -65,11 +65,12 @@ def documents(tier, rng):
     for op in OPS:
         for target in (None, [], [ref('storyID', 'A')], [ref('storyID', 'A'), ref('itemID', 'i')], [ref('itemID', 'i')],
                        [ref('storyID', 'A'), ref('itemID', None)], [ref('storyID', None), ref('itemID', None)],
-                       [ref('storyID', None)], [E('wrapper', ref('itemID', 'i'))]):
+                       [ref('storyID', None)], [E('wrapper', ref('itemID', 'i'))],
+                       [ref('storyID', 'A'), ref('itemID', 'i'), ref('itemID', 'k')], [ref('itemID', 'i'), ref('itemID', 'i'), ref('itemID', 'k')]):
             for sources in ([], [[]], [[ref('storyID', 'B')]], [[ref('itemID', 'j')]], [[story('N')]], [[item('n')]],
                             [[ref('storyID', 'B')], [ref('itemID', 'j')]], [[ref('itemID', 'j')], [ref('storyID', 'B')]],
                             [[ref('itemID', None)]], [[ref('storyID', None)]], [[ref('itemID', None), ref('itemID', 'j')]],
-                            [[E('wrapper', ref('itemID', 'j'))]]):
+                            [[E('wrapper', ref('itemID', 'j'))]], [[ref('itemID', 'j'), ref('itemID', 'k'), ref('itemID', 'l')]]):
                 yield to_text(element_action(5, op, target, sources)), {'kind': 'ea', 'tag': 'roElementAction:' + str(op)}
     # non-MOS XML
     for t in ('<a/>', '<a><b/></a>', '<mos/>', '<mos><heartbeat/></mos>', '<html><body>x</body></html>',
@@ -101,7 +102,7 @@ class Check:
     pid = 'C08'
     rule = ('15 message tags x 4 payloads x 4 envelopes; empty / text-only / pretty-printed message elements; pairs of '
             'message elements in both document orders; nested message elements; roElementAction with 9 operation values '
-            'x 9 element_target shapes x 12 element_source shapes (blank and nested ID tags included); non-MOS XML; a completed running order; seeded random '
+            'x 11 element_target shapes x 13 element_source shapes (blank, nested and several ID tags included); non-MOS XML; a completed running order; seeded random '
             'documents; 12 malformed texts. Each document is classified from str, bytes and a file (UTF-8, and with a declaration in UTF-16 and ISO-8859-1 where representable), in interpreters '
             'started with default flags and with -W error. distinct by (kind, tag/operation, outcome)')
 
